@@ -74,7 +74,12 @@ def check(ctx, al, paths, kind):
     ctx.expect("five-keys", ok_keys, True, dict(keys=sorted(res) if isinstance(res, dict) else None))
     if not ok_keys:
         return
-    obs = {k: set(tuple(map(tuple, p)) for p in v) for k, v in res.items()}
+    try:
+        obs = {k: set(tuple(map(tuple, p)) for p in v) for k, v in res.items()}
+    except TypeError as ex:
+        # a value that is not a list of paths (lists of hops): nothing to compare, the answer is malformed
+        ctx.violation("annotate:malformed-output", dict(paths=paths, result=repr(res)[:400], exception=repr(ex)))
+        return
     ctx.expect("annotate==recomputed", obs, ref, dict(paths=paths))
     inputs = set(tuple(map(tuple, p)) for p in paths)
     stray = [p for v in obs.values() for p in v if p not in inputs]
